@@ -208,6 +208,66 @@ def conversionRelayed (out : Outputs) : Bool := !fails out && out.conversion = .
 
 end Spec
 
+/-! ## the patch file of a FAILED execution (fourth wave)
+
+`handleRunHook`, error branch: `if result != nil && len(result.KubernetesPatchBytes) > 0 { ParseOperations;
+ExecuteOperations(GetPatchStatusOperationsOnHookError(operations)) }` — the documented exception
+("IgnoreHookError — allows applying patches for a Status subresource even if the hook fails",
+`object_patch/patch.go`). `Run` reads the patch file LAST, after every step that can fail, so on an
+error `result.KubernetesPatchBytes` is empty and the branch executes nothing (`RunResult.patch = .empty`
+on every failing path of `run`). -/
+
+/-- One parsed operation of the patch file, as the error branch looks at it. -/
+structure POp where
+  isPatch : Bool          -- the type assertion `op.(*patchOperation)` succeeds (MergePatch / JSONPatch / JQPatch)
+  subresource : String    -- `operation.subresource`
+  ignore : Bool           -- `operation.ignoreHookError`
+  deriving DecidableEq, Repr
+
+/-- `GetPatchStatusOperationsOnHookError`: `for _, op := range operations { if ok && subresource ==
+"/status" && ignoreHookError { append } }` — the loop with its accumulator; the literal is regenerated
+from `object_patch/operation.go`. -/
+def statusOpsOnError : List POp → List POp → List POp
+  | [], acc => acc
+  | op :: ops, acc =>
+    if op.isPatch && op.subresource == ShellOp.Facts.c12OnErrorSubresource && op.ignore
+    then statusOpsOnError ops (acc ++ [op]) else statusOpsOnError ops acc
+
+/-- The same loop with the condition `ok && (subresource == "/status" || ignoreHookError)` — what a
+De Morgan slip in an early-`continue` rewrite gives (witness in `Props/C12`). -/
+def statusOpsOnErrorOr : List POp → List POp → List POp
+  | [], acc => acc
+  | op :: ops, acc =>
+    if op.isPatch && (op.subresource == ShellOp.Facts.c12OnErrorSubresource || op.ignore)
+    then statusOpsOnErrorOr ops (acc ++ [op]) else statusOpsOnErrorOr ops acc
+
+/-- The operations of the patch file (`ops`, when the bytes parse) that `handleRunHook` hands to
+`ExecuteOperations`. On the error branch `r.patch` is what `Run` left in `result.KubernetesPatchBytes`. -/
+def handleOps (r : RunResult) (ops : List POp) : List POp :=
+  if r.failed then
+    match r.patch with
+    | .ops _ => statusOpsOnError ops []      -- `len(bytes) > 0` and `ParseOperations` accepts them
+    | _ => []                                 -- no bytes (always, with `run`), or they do not parse: return
+  else if (handle r).patchExecuted then ops else []
+
+namespace Spec
+
+/-- Is an operation covered by the documented exception: a patch of the status subresource that the
+hook marked `ignoreHookError`. -/
+def statusIgnore (o : POp) : Bool := o.isPatch && o.subresource == "/status" && o.ignore
+
+/-- The contract on the operations of the patch file, on what was observed (`applied i` = operation
+`i` took effect in the cluster): after a non-zero exit or a malformed output nothing is applied —
+except, at most, the operations of the documented exception; an execution that does not fail applies
+every operation; one that fails later (rejected metric batch, failing patch) is left open. -/
+def admitsOps (out : Outputs) (ops : List POp) (applied : List Bool) : Bool :=
+  applied.length == ops.length &&
+  (if out.exit ≠ 0 || malformed out then (ops.zip applied).all (fun (o, a) => !a || statusIgnore o)
+   else if fails out then true
+   else applied.all id)
+
+end Spec
+
 /-! ## concurrent executions sharing the temp directory -/
 
 /-- Slot `k` (creation order: context, metrics, admission, conversion, patch) ↦ its position in the
